@@ -330,6 +330,7 @@ def case_function(ctx, rng, idx):
         ctx.ev("sample-equals-model", err <= tol, n=len(pick), cls="function",
                detail=d(error=err, tolerance=tol, got=h[..., pick].ravel()[:3],
                         want=hm.ravel()[:3]))
+        ctx.sample("function", {**tag, "k": k, "n": n, "head": h.ravel()[:3]})
         ctx.sig("fn", len(st), Ts, int(math.log10(max(k, 1))), n, r > 0)
         k += n
         t = t2
